@@ -58,7 +58,7 @@ fn check_cell(method: &str, status: u16, same_host: bool, body: &str) -> (Option
         let pf = cfg.build_prepare().map_err(h)?;
         let mut sr = pf.proceed();
         let mut buf = vec![0u8; 4096];
-        sr.write(&mut buf).map_err(|e| h(format!("head: {:?}", e)))?;
+        crate::driver::write_whole_head(&mut sr).map_err(|e| h(format!("head: {}", e)))?;
         let mut st = AnyFlow::SendRequest(sr).proceed().map_err(h)?.ok_or(h("cannot leave SendRequest".into()))?;
         let mut guard = 0;
         let mut f = loop {
@@ -123,7 +123,14 @@ fn check_cell(method: &str, status: u16, same_host: bool, body: &str) -> (Option
         }
         if let AnyFlow::RecvBody(mut b) = cur {
             let mut out = [0u8; 16];
-            let (c, _) = b.read(body_bytes, &mut out).map_err(|e| ("C15:harness".to_string(), format!("read: {:?}", e)))?;
+            let mut c = 0;
+            for _ in 0..32 {
+                let (k, _) = b.read(&body_bytes[c..], &mut out).map_err(|e| ("C15:harness".to_string(), format!("read: {:?}", e)))?;
+                c += k;
+                if k == 0 {
+                    break;
+                }
+            }
             if c != body_bytes.len() || !b.can_proceed() {
                 return Err(("C15:harness".into(), format!("body not consumed: {} of {}", c, body_bytes.len())));
             }
@@ -167,9 +174,8 @@ fn check_cell(method: &str, status: u16, same_host: bool, body: &str) -> (Option
                 }
                 // and on the wire
                 let mut sr = nf.proceed();
-                let mut buf = vec![0u8; 2048];
-                let n = sr.write(&mut buf).map_err(|e| ("C15:new-flow-unwritable".to_string(), format!("{}: {:?}", cell, e)))?;
-                let h = head::parse(&buf[..n]).map_err(|e| ("C15:new-head-malformed".to_string(), format!("{}: {}", cell, e)))?;
+                let hb = crate::driver::write_whole_head(&mut sr).map_err(|e| ("C15:new-flow-unwritable".to_string(), format!("{}: {}", cell, e)))?;
+                let h = head::parse(&hb).map_err(|e| ("C15:new-head-malformed".to_string(), format!("{}: {}", cell, e)))?;
                 let (m, t, _) = h.request_line().map_err(|e| ("C15:new-head-malformed".to_string(), e))?;
                 if m != w || t != "/next" {
                     return Err(("C15:wrong-request-line".into(), format!("{}: request line {:?}, expected {} /next", cell, String::from_utf8_lossy(&h.start_line), w)));
